@@ -1,4 +1,5 @@
 import Rbp.Proofs.ScriptMachine
+import Rbp.Proofs.ScriptMachineBtc
 /-!
 # C14 — no script or witness content can abort a run or disturb other rows
 Totality is stated on the panic-site models: every Rust site that can panic is an explicit `.panic` outcome there.
@@ -24,6 +25,20 @@ theorem tokeniser_total (s : Bytes) (hlen : s.length < 2^63) :
 /-- `match_stack_pattern` indexes both vectors only below their common length -/
 theorem matchPattern_total (els pat : List El) : ∃ b, matchPattern els pat = .ok b :=
   ⟨_, matchPattern_eq els pat⟩
+
+/-- Bitcoin / testnet3: the path through rust-bitcoin, modelled with its panic sites explicit — the `u8` key counter of
+    `Script::is_multisig` (behind the repo's instruction-count guard), `bytes[bytes.len() - 2]` in `is_bare_multisig`, and
+    `unreachable!()` in `p2pk_to_string` — never reaches one, for every byte string, and returns the structural model's verdict -/
+theorem evalBtc_total (testnet : Bool) (s : Bytes) : SMB.evalBtcM testnet s = .ok (evalBtc testnet s) :=
+  SMB.evalBtcM_eq testnet s
+
+/-- the guard is what makes the counter safe: a script accepted by it has at most 19 instructions, and a script typed
+    multisig has at least 3 bytes, so `len - 2` cannot underflow -/
+theorem bare_multisig_safe (s : Bytes) : SMB.isBareMultisigM s = .ok (isBareMultisig s) ∧ (isMultisigLib s = true → 3 ≤ s.length) :=
+  ⟨SMB.isBareMultisigM_eq s, SMB.multisig_len s⟩
+
+/-- non-vacuity: the panic outcome of the counter model is reachable without the guard (the 256th push) -/
+example : SMB.keysM [some (Ins.push [])] 255 = .panic := by decide
 
 /-- non-vacuity: a PUSHDATA4 announcing 2^32-1 bytes on a 5-byte script ends in `eof`, not in a panic -/
 example : SM.loop [0x4e, 0xff, 0xff, 0xff, 0xff] 6 0 [] = .eof := by decide
